@@ -89,7 +89,9 @@ def design_section(rows):
            "a scratch worktree - nothing from `/verif`; `regression-*` are the reverse patches of the `fix:` commits.",
            f"With the checks as committed, {tc} of {total} are reported (VIOLATION, exit 1) by the quick tier of the check of",
            "the property they were written against; `seeded/README.md` lists, per seed, the change, what it needs to",
-           "manifest and the signatures that report it.",
+           "manifest and the signatures that report it. Three seeds were dropped because a later `fix:` commit made their",
+           "patch harmless or inapplicable (agent7-C05-1 and agent6-C05-3 after `5d184fa`; agent6-C17-1 after `326413d` - the",
+           "same change is kept as agent10-C17-1).",
            "",
            "The seeds arrived in eight waves (1-4, 6, 7, 8, 10; waves 5 and 9 were the property-preserving counter-tests) and the checks were strengthened after each; what each miss taught:",
            "",
